@@ -567,6 +567,56 @@ def rule_sibling(ctx):
            "both branches: V = V0 - Z i if the pre-fault voltage is valid else -Z i" if ok else f"branches differ: {shapes}", fk.loc(br[0]))
 
 
+def rule_k_independent(ctx):
+    """the network that is shared by all faulted buses must not depend on which buses are faulted in this call"""
+    R = "SC-K-INDEPENDENT"
+    ctx.rule(R, "_create_k_updated_ppci: every store into the shared `ppci` (the network used for all non-power-station fault buses) and "
+                "every condition guarding such a store is independent of the parameter ppci_bus (the buses faulted in this call); only the "
+                "per-bus copies ppci_gen may depend on it - otherwise calc_sc(bus=[a]) and calc_sc(bus=[a, b]) differ at bus a")
+    fi = ctx.repo.func("pandapower.shortcircuit.ppc_conversion:_create_k_updated_ppci")
+    tainted = {"ppci_bus"}
+    changed = True
+    while changed:
+        changed = False
+        for st in ast.walk(fi.node):
+            if isinstance(st, ast.Assign) and len(st.targets) == 1 and isinstance(st.targets[0], ast.Name) and st.targets[0].id not in tainted \
+                    and names_in(st.value) & tainted:
+                tainted.add(st.targets[0].id)
+                changed = True
+            if isinstance(st, ast.For) and isinstance(st.target, ast.Name) and st.target.id not in tainted and names_in(st.iter) & tainted:
+                tainted.add(st.target.id)
+                changed = True
+    n = 0
+
+    def root(t):
+        while isinstance(t, (ast.Subscript, ast.Attribute)):
+            t = t.value
+        return t.id if isinstance(t, ast.Name) else None
+
+    def scan(body, guards):
+        nonlocal n
+        for st in body:
+            if isinstance(st, ast.If):
+                scan(st.body, guards + [st.test])
+                scan(st.orelse, guards + [st.test])
+            elif isinstance(st, (ast.For, ast.While)):
+                scan(st.body, guards + [st.iter if isinstance(st, ast.For) else st.test])
+            elif isinstance(st, (ast.Assign, ast.AugAssign)):
+                tg = st.targets[0] if isinstance(st, ast.Assign) else st.target
+                if root(tg) == "ppci" and isinstance(tg, ast.Subscript):
+                    n += 1
+                    used = names_in(st.value) | names_in(tg)
+                    for g in guards:
+                        used |= names_in(g)
+                    bad = sorted(used & tainted)
+                    ctx.ob(R, f"pandapower.shortcircuit.ppc_conversion::_create_k_updated_ppci::store#{n}", not bad,
+                           f"`{norm(tg, 60)}` independent of the faulted buses" if not bad else
+                           f"`{norm(st, 90)}` (or its guard) depends on {bad}, i.e. on the buses faulted in this call", fi.loc(st))
+    scan(fi.node.body, [])
+    if n < 5:
+        ctx.fail(f"_create_k_updated_ppci: only {n} stores into the shared ppci found (confirmed: 6)")
+
+
 def run(ctx):
     ctx.assume("shapes: unit dimensions from the column naming convention and the ppc column table; a literal that is an exact "
                "power of ten is a unit conversion")
@@ -577,6 +627,15 @@ def run(ctx):
                 "stated quantities (voltage factor of the right case, equivalent impedance, rated voltage)")
     run_cases(ctx, R, shape_cases(), aspects=("units", "base", "dec", "needs"))
     ctx.require_min(R, 40)
+    rule_k_independent(ctx)
+    from ppsa import facts as _facts
+    RT = "SC-TEMP"
+    ctx.rule(RT, "the resistance correction of the minimum short-circuit current uses the end temperature of the line and the fixed "
+                 "coefficient 0.004/K of IEC 60909: with short_circuit=True the factor depends on endtemp_degree and not on the "
+                 "load-flow columns alpha / temperature_degree_celsius")
+    run_cases(ctx, RT, [Case("sc-temperature", "pandapower.build_branch:_end_temperature_correction_factor", [
+        Sink("ret", {}, 0, ["net.line.endtemp_degree"], forbids=["net.line.alpha", "net.line.temperature_degree_celsius"], deps_only=True),
+    ], args={"short_circuit": _facts.const(True), "dc": _facts.const(False)})], aspects=("needs", "forbids"))
     ctx.info("not decided by the shape domain: GS_P/BS_P of _add_gen_sc_z_kg_ks (NaN-initialised helper array), IKSS2/IKCV "
              "(matrix products)")
     from rules import _lints
@@ -610,6 +669,8 @@ def variants(repo):
     bb = "pandapower/build_bus.py"
     pc = "pandapower/shortcircuit/ppc_conversion.py"
     return [
+        V("power station correction only when a generator bus is faulted", pc, replace_once("    if np.any(ps_gen_bus_mask):\n", "    if ps_gen_bus.size > 0:\n"), "SC-K-INDEPENDENT"),
+        V("min-case line resistance with the load-flow alpha", "pandapower/build_branch.py", in_function("_end_temperature_correction_factor", replace_once("        alpha = 4e-3\n    else:", "        alpha = net[element].alpha.values.astype(np.float64) if 'alpha' in net[element].columns else 4e-3\n    else:")), "SC-TEMP"),
         V("baseI without base power", cu, in_function("_calc_ikss", replace_once('* np.sqrt(3) / ppci["baseMVA"]', "* np.sqrt(3)")), "ikss-3ph-max:store:ppc.bus.IKSS1"),
         V("2ph without base power", cu, replace_once('/ 2 * ppci["baseMVA"])', "/ 2)"), "ikss-2ph-max:store:ppc.bus.IKSS1"),
         V("2ph divided by sqrt3", cu, replace_once('ppci["bus"][bus_idx, BASE_KV] / 2 * ppci["baseMVA"])', 'ppci["bus"][bus_idx, BASE_KV] / np.sqrt(3) * ppci["baseMVA"])'), "ratio-2ph-3ph"),
